@@ -105,6 +105,9 @@ def eval_stmt(fn, n, octets, param_d):
         return bool(eval_expr(fn, fn.kids(n)[0], octets, param_d))
     if k in ('NullStmt',):
         return None
+    if k in ('CStyleCastExpr', 'CXXStaticCastExpr', 'ParenExpr') and all(fn.nodes[j]['k'] in ('CStyleCastExpr', 'CXXStaticCastExpr', 'ParenExpr', 'IntegerLiteral', 'ImplicitCastExpr')
+                                                                         for j in fn.walk(n)):
+        return None          # `(void)0;` — an expression statement without effect
     raise Unsupported('statement %s at %s' % (k, fn.loc(n)))
 
 
